@@ -56,7 +56,9 @@ def gen_history(draw):
             live += 1
         elif k.startswith("destroy"):
             steps.append({"k": "destroy", "which": k.split("-")[1], "n": draw(st.integers(0, 50)),
-                          "batch": draw(st.sampled_from([None, None, "then-fail", "then-fail-continue", "then-ok", "after-ok"]))})
+                          "batch": draw(st.sampled_from([None, None, "then-fail", "then-fail-continue", "then-ok", "after-ok",
+                                                         "then-probe", "then-probe", "read-then-probe"])),
+                          "alias": draw(st.sampled_from([None, None, "0%s", " %s", "%s.0", "+%s"]))})
             live -= 1
             dead += 1
             if draw(st.booleans()):
@@ -194,23 +196,56 @@ class Run(object):
         cli = H.Client(self.srv, o["owner"])
         mode = step.get("batch")
         d = {"op": "Destroy", "uid": o["uid"]}
+        alias = step["alias"] % o["uid"] if step.get("alias") and o["uid"].isdigit() else None
+        if alias is not None:
+            # the object is read under another spelling of its identifier while it is alive ...
+            cli.one({"op": "Get", "uid": alias})
+            self.classes.append("read-under-alias-before-destroy")
         if mode is None:
             r = cli.one(d)
         else:
             # the Destroy travels in a batch: followed by a failing / succeeding item, or preceded by one
             bad = {"op": "Get", "uid": "999999"}
             good = {"op": "Query"}
+            # the identifier is dead as soon as the Destroy item has succeeded: later items of the
+            # SAME batch that name it (or rely on the ID placeholder after a read of it) fail too
+            probes = [{"op": "Get", "uid": o["uid"]}, {"op": "GetAttributes", "uid": o["uid"]},
+                      {"op": "GetAttributeList", "uid": o["uid"]}, {"op": "Activate", "uid": o["uid"]},
+                      {"op": "Locate"}]
             items = {"then-fail": [d, bad], "then-fail-continue": [d, bad, good], "then-ok": [d, good],
-                     "after-ok": [good, d]}[mode]
-            rr = cli.request(items, **({"cont": "CONTINUE"} if mode == "then-fail-continue" else {}))
+                     "after-ok": [good, d], "then-probe": [d] + probes,
+                     "read-then-probe": [{"op": "Get", "uid": o["uid"]}, d] + probes}[mode]
+            cont = mode in ("then-fail-continue", "then-probe", "read-then-probe")
+            rr = cli.request(items, **({"cont": "CONTINUE"} if cont else {}))
             its = rr["items"] or []
             r = next((i for i in its if i["op"] == "Destroy"), {"status": "MISSING", "reason": None})
             self.classes.append("destroy-in-batch:" + mode)
+            if mode.endswith("probe") and r["status"] == "SUCCESS":
+                k0 = next(k for k, i in enumerate(its) if i["op"] == "Destroy")
+                for it in its[k0 + 1:]:
+                    if it["op"] == "Locate":
+                        if it["status"] == "SUCCESS" and o["uid"] in (it["payload"] or {}).get("uids", []):
+                            self.bucket("C07|dead-identifier-listed-by-locate|same-batch",
+                                        "Locate in the batch that destroyed %s still lists it" % o["uid"])
+                    elif it["status"] == "SUCCESS":
+                        self.bucket("C07|operation-on-dead-identifier-succeeded|%s|same-batch" % it["op"],
+                                    "%s of %s succeeded after the Destroy item of the same batch: %r"
+                                    % (it["op"], o["uid"], it.get("payload")))
         if r["status"] != "SUCCESS":
             self.bucket("C07|destroy-failed|%s" % r["reason"], repr(r))
             return
         self.live.remove(o)
         self.dead.append(o)
+        if alias is not None:
+            # ... and is dead under that spelling too afterwards
+            for op in ("Get", "GetAttributes"):
+                ra = cli.one(_probe_item(op, alias))
+                if ra["status"] == "SUCCESS":
+                    self.bucket("C07|operation-on-dead-identifier-succeeded|%s|spelling" % op,
+                                "uid %r (dead identifier %s): %r" % (alias, o["uid"], ra))
+                elif ra["reason"] not in ("ITEM_NOT_FOUND", "PERMISSION_DENIED"):
+                    self.bucket("C07|operation-on-dead-identifier-not-answered-as-not-found|%s|%s|spelling"
+                                % (op, ra["reason"]), "uid %r: %r" % (alias, ra))
         others_after = self.others_snapshot(o["uid"])
         if others_after != others_before:
             diff = [t for t in others_after if others_after[t] != others_before.get(t)]
@@ -323,6 +358,18 @@ class Run(object):
         elif r["message"] != ok_text or r["reason"] not in ("ITEM_NOT_FOUND", "PERMISSION_DENIED"):
             self.bucket("C07|operation-on-dead-identifier-not-answered-as-not-found|%s|%s" % (op, r["reason"]),
                         "uid %s as %s: %r" % (uid, who, r))
+        # other spellings the numeric key column takes for the same identifier ('07', ' 7', '7.0',
+        # '+7'): the object is just as dead under them
+        if op in ("Get", "GetAttributes") and uid.isdigit():
+            for sp in ("0%s", " %s", "%s.0", "+%s"):
+                alias = sp % uid
+                ra = cli.one(_probe_item(op, alias))
+                if ra["status"] == "SUCCESS":
+                    self.bucket("C07|operation-on-dead-identifier-succeeded|%s|spelling" % op,
+                                "uid %r (dead identifier %s) as %s: %r" % (alias, uid, who, ra))
+                elif ra["reason"] not in ("ITEM_NOT_FOUND", "PERMISSION_DENIED"):
+                    self.bucket("C07|operation-on-dead-identifier-not-answered-as-not-found|%s|%s|spelling"
+                                % (op, ra["reason"]), "uid %r as %s: %r" % (alias, who, ra))
 
     def probe_all(self):
         for o in self.dead[-6:]:
